@@ -165,6 +165,7 @@ def generate(seed, tier):
              const_kinds=("i", "i", "f", "b", "npi", "npf", "c"), const_values=(0, 1, 2, -1, 3, 7))
     g.extra_fields = dict(GA_FIELDS)
     g.extra_fields.update(USER_FIELDS)
+    g.allow_short = True
     class _ArithGen(_Gen):
         def node(self, cls, depth):
             if cls == "Power":
